@@ -13,7 +13,7 @@ from fractions import Fraction
 from . import core
 
 GRID = {"cart": dict(shape=(3, 2, 2), steps=(2.0, 1.0, 3.0))}
-CYL = [(4, 45, 2, 3), (4, 45, 1, 6), (1, 360, 2, 3), (2, 90, 1, 6)]        # (NPHI, DPHI, NZc, DZc): incl. a single Z layer and the axisymmetric case
+CYL = [(4, 45, 2, 3), (4, 45, 1, 6), (1, 360, 2, 3), (2, 90, 1, 6), (3, 120, 1, 6), (2, 60, 2, 3)]      # the last two: an odd number of periods per turn (1 and 3)        # (NPHI, DPHI, NZc, DZc): incl. a single Z layer and the axisymmetric case
 
 
 def material(kind, vmap, cyl=None):
